@@ -22,6 +22,7 @@ func init() {
 		},
 		Run: runC28,
 		Controls: []Control{
+			{Name: "adj-rib-in-created-before-the-open-is-evaluated", File: "protocols/bgp/server/bmp_router.go", Old: "\t}, fsm)\n\n\trib6, found := fsm.peer.vrf.RIBByName(\"inet6.0\")", New: "\t}, fsm)\n\tfsm.ipv4Unicast.bmpInit()\n\n\trib6, found := fsm.peer.vrf.RIBByName(\"inet6.0\")", Expect: "session-snapshot-after-negotiation"},
 			{Name: "ignored-peers-survive-the-session", File: "protocols/bgp/server/bmp_router.go", Old: "\tr.ignoredPeers = make(map[bnet.IP]struct{})\n}", New: "}", Expect: "session-state-ends-with-session"},
 			{Name: "decode-options-cached-in-the-neighbor", File: "protocols/bgp/server/bmp_router.go", Old: "\topt := s.fsm.decodeOptions()\n\topt.Use32BitASN = !msg.PerPeerHeader.GetAFlag()\n", New: "\topt := n.opt\n\topt.Use32BitASN = !msg.PerPeerHeader.GetAFlag()\n", Expect: "per-message-decode-options"},
 			{Name: "width-only-changed-for-legacy-messages", File: "protocols/bgp/server/bmp_router.go", Old: "\topt.Use32BitASN = !msg.PerPeerHeader.GetAFlag()\n", New: "\tif msg.PerPeerHeader.GetAFlag() {\n\t\topt.Use32BitASN = false\n\t}\n", Expect: "per-message-decode-options"},
@@ -39,6 +40,7 @@ func init() {
 func runC28(c *core.Ctx) {
 	sessionStateEndsWithSession(c)
 	perMessageOptionsAreFresh(c)
+	snapshotAfterNegotiation(c)
 	p := c.P
 	disp := c.MustFunc(srv + ".(*fsmAddressFamily).bmpDispose")
 	down := c.MustFunc(srv + ".(*neighborManager)._neighborDown")
